@@ -344,6 +344,39 @@ pub fn run_check(replay: Option<Value>) -> i32 {
         rep.absorb(outs.into_iter().flatten().collect());
     }
 
+    // the tolerances a caller does not give are SciPy's defaults (rtol 1e-3, atol 1e-6): leaving one or both
+    // unset is the same run, bit for bit, as giving those values; judged on a solution of size 1e-3
+    // (where the two defaults matter equally)
+    {
+        let small = Prob { y0: vec![1e-3, 0.0], ..base(Base::Harmonic(1.0)) };
+        for m in M5 {
+            for (dr, da) in [(true, false), (false, true), (true, true)] {
+                let mut ce = Cfg::new(m, 0.0, 3.0, &small.y0);
+                ce.rtol = Tol::S(1e-3);
+                ce.atol = Tol::S(1e-6);
+                let mut cd = ce.clone();
+                cd.default_rtol = dr;
+                cd.default_atol = da;
+                let (re, rd) = (run(&small, &ce), run(&small, &cd));
+                rep.evaluations += 2;
+                rep.transitions += re.st.n_ode + rd.st.n_ode;
+                let key = format!("defaults:{}:{}{}", mname(m), dr as u8, da as u8);
+                let same = match (re.sol(), rd.sol()) {
+                    (Some(a), Some(b)) => a.status == b.status && a.t.len() == b.t.len() && a.t.iter().zip(&b.t).all(|(u, v)| u.to_bits() == v.to_bits()) && a.y.iter().zip(&b.y).all(|(u, v)| u.iter().zip(v).all(|(p, q)| p.to_bits() == q.to_bits())) && re.st.fp == rd.st.fp,
+                    _ => false,
+                };
+                *rep.tags.entry("default-tolerances".into()).or_insert(0) += 1;
+                if !same {
+                    rep.violations.push(
+                        Violation::new(&key, "default-tolerances", format!("{}: leaving {} unset is not the run with rtol = 1e-3, atol = 1e-6 ({} vs {} accepted steps)", mname(m), match (dr, da) { (true, false) => "rtol", (false, true) => "atol", _ => "rtol and atol" }, rd.sol().map(|s| s.naccpt).unwrap_or(0), re.sol().map(|s| s.naccpt).unwrap_or(0)), json!({"key": key}))
+                            .with("method", mname(m))
+                            .with("mode", "defaults"),
+                    );
+                }
+            }
+        }
+    }
+
     // RK4: fourth-order global convergence as the step is refined
     let rk4_jobs: Vec<(usize, Dir)> = (0..vars.len()).flat_map(|vi| DIRS.iter().map(move |d| (vi, *d))).collect();
     let outs = par_map(rk4_jobs.len(), |j| {
